@@ -51,9 +51,9 @@ CHECKS = dict([
    "Right level: decode(write(g)) == g on every bounded grammar, in every mode.",
    "file system stubs; harness decoders."),
  T("C10", "the three transition oracles on every tree shape of the bound with every head assignment after the real transform.binarize (in-order also "
-   "unbinarized); the emitted sequence is executed by harness automata and must rebuild the tree incl. unary nodes, root and head sides; output file with/without pos.",
+   "unbinarized); the emitted sequence is executed by harness automata and must rebuild the tree incl. unary nodes, root and head sides; also on trees that were written by the export/TIGER-XML writers or collapsed/uncollapsed before; output file with/without pos.",
    "Right level: soundness of an oracle = replay equality on every input of the bound.",
-   "the three replay automata in harness/c10.py."),
+   "the three replay automata in harness/c10.py (gap: the variant the tool simulates, whose deque flush reverses gapped items; see DESIGN section 5)."),
  T("C11", "delete_terminal, punctuation_delete, ptb_delete_traces (keep/keepall/keepcoindex/slash selectors), insert/substitute_terminals with one or two "
    "edit lines from bounded (sentence id, index) selectors on an in-memory terminal file, and filter_by_length with an UNBOUNDED symbolic value.",
    "Right level: frame conditions (exactly the targeted tokens change) checked on every bounded tree and edit request.",
@@ -65,11 +65,11 @@ CHECKS = dict([
    "relative-clause option with a symbolic position of the designated POS; post-conditions evaluated on the result.",
    "Right level: post-conditions over all punctuation placements incl. consecutive punctuation and punctuation-only constituents.",
    "the harness's own copy of the documented punctuation lists."),
- T("C14", "transform.binarize on every shape of the bound (arity up to 4, thorough 5) with every head assignment and bare_bin_labels, the unmarked case, "
+ T("C14", "transform.binarize on every shape of the bound (arity up to 4, thorough 5) with every head assignment and bare_bin_labels, labels rotated through function/gap-index/co-index decorations (co-indices of 1-3 digits), the unmarked case, "
    "and collapse/uncollapse on every shape with unary chains up to length 4.",
    "Right level: reversibility is an equation on every input of the bound.", "nothing beyond the common base."),
  T("C15", "negra_mark_heads on one constituent with up to 4 children and every edge assignment plus whole trees; mark_heads_by_rules for every parent "
-   "category of the preset tables (read from /repo at run time), symbolic listed child category, position and label decoration; exactly-one-head for every parent category incl. those with an empty rule and an unknown one; rejection cases.",
+   "category of the preset tables (read from /repo at run time), symbolic listed child category, position and label decoration, on trees with and without earlier head marks and after an earlier call under the other preset in the same process; exactly-one-head for every parent category incl. those with an empty rule and an unknown one; rejection cases.",
    "Right level: the rule is a finite decision table per constituent.", "the reading of 'listed' = any space-separated entry of the parent's rule."),
  T("C16", "gap_degree_node / terminal_blocks / gap_degree on skeletons up to 3 constituents / 4 tokens (thorough 4 / 5) with ARBITRARY pairwise distinct "
    "symbolic token positions (unbounded); agreement of the three notions of discontinuity; treeanalysis.run in-process (sentence order symbolic); the analysis before and after transformations of the same tree; disco_order.",
@@ -82,9 +82,9 @@ CHECKS = dict([
    "Right level: the arithmetic kernel is pure integer code (a for-all over integers); the distribution part is a bounded configuration space.",
    "pysym's translation (validated on every run against the real function on 10 concrete inputs incl. the repository's test input); file system stubs.", TECHB),
  T("C18", "all histories of up to 2 (thorough 3) commands from an alphabet of 21 real command invocations followed by every probe command, in one "
-   "process without resets, compared with the value the probe produces in a fresh process; additivity result(A+B) = result(A)++result(B) for 12 operations on a symbolic tree.",
+   "process without resets, compared with the value the probe produces in a fresh process; additivity result(A+B) = result(A)++result(B) for 12 operations on a symbolic tree; two lazily consumed readers (all format pairs, plain/gzip, same base name in two directories) advanced in every order of the first four steps.",
    "Right level: history independence is a for-all over call sequences; the solver exhausts the bounded sequence space.",
-   "fresh-process baseline computed by plain runs under four hash seeds (an auxiliary concrete observation, stated in the evidence); hash seeds beyond those are outside."),
+   "fresh-process baseline computed by plain runs under four hash seeds (an auxiliary concrete observation, stated in the evidence); hash seeds beyond those are outside; temporary copies on disk are read with an 8-byte read-ahead (a reader may fetch its bytes in pieces of any size)."),
  T("C19", "the navigation API and export numbering on skeletons up to 3 constituents / 4 tokens (thorough 4 / 4 and 3 / 5), child lists forward or reversed, "
    "with ARBITRARY pairwise distinct symbolic token positions (unbounded); levels and numbering recomputed after the tree was restructured.",
    "Right level: set-based model equality on every shape; positions symbolic.", "nothing beyond the common base."),
